@@ -34,6 +34,66 @@ fn parse_gbp(s: &str) -> Option<Q> {
     Some(if neg { q.neg() } else { q })
 }
 
+/// independent rounding at k decimals, half away from zero
+fn half_away_at(x: &Q, k: u32) -> Q {
+    let p = Q::new(num_bigint::BigInt::from(10u32).pow(k), 1.into());
+    let s = x.abs().mul(&p);
+    let fl = { use num_integer::Integer; Q::new(s.n.div_floor(&s.d), 1.into()) };
+    let frac = s.sub(&fl);
+    let r = if Q::new(1.into(), 2.into()).le(&frac) { fl.add(&Q::int(1)) } else { fl };
+    let r = r.div(&p);
+    if x.is_neg() { r.neg() } else { r }
+}
+
+/// a figure "[-]ddd[.ddd] CODE" with exactly k decimals
+fn parse_foreign(s: &str, code: &str, k: u32) -> Option<Q> {
+    let body = s.strip_suffix(code)?.strip_suffix(' ')?;
+    let neg = body.starts_with('-');
+    let digits = body.trim_start_matches('-');
+    let (ip, fp) = match digits.split_once('.') { Some((i, f)) => (i, f), None => (digits, "") };
+    if fp.len() != k as usize || ip.is_empty() || !ip.chars().all(|c| c.is_ascii_digit()) || !fp.chars().all(|c| c.is_ascii_digit()) { return None; }
+    if (k == 0) != !digits.contains('.') { return None; }
+    let q = Q::parse(&format!("{}{}/1{}", ip, fp, "0".repeat(fp.len())))?;
+    Some(if neg { q.neg() } else { q })
+}
+
+const CODES: &[&str] = &["USD", "EUR", "JPY", "KWD", "CHF", "BHD", "KRW", "CLF"];
+
+fn gen_foreign(r: &mut Rng, k: u32) -> Decimal {
+    let sign = if r.chance(1, 4) { -1 } else { 1 };
+    let v = match r.below(5) {
+        0 | 1 => Decimal::new(r.range(0, 2_000_000) * 10 + 5, k + 1),                       // exactly on a half unit
+        2 => Decimal::new(r.range(0, 2_000_000) * 100 + *r.pick(&[49i64, 50, 51]), k + 2),  // around it
+        3 => Decimal::new(r.range(0, 100_000_000), k),
+        _ => Decimal::new(r.range(0, 10_000_000_000), 6),
+    };
+    v * Decimal::from(sign)
+}
+
+fn check_foreign(ctx: &mut Ctx, code: &str, v: Decimal) {
+    use cgt_money::{Currency, CurrencyAmount};
+    let Some(cur) = Currency::from_code(code) else { return };
+    ctx.ev.evaluations += 1;
+    let amt = CurrencyAmount::new(v, cur);
+    let k = amt.minor_units() as u32;
+    let q = Q::from_dec(v);
+    let want = half_away_at(&q, k);
+    let text = cgt_format::format_currency_amount(&amt);
+    ctx.ev.count(&format!("foreign:{code}(exp {k})"));
+    let scaled = v * Decimal::from(10i64.pow(k + 1));
+    if scaled.fract().is_zero() && (scaled % Decimal::from(10)).abs() == Decimal::from(5) { ctx.ev.count("foreign-midpoints"); ctx.ev.nontrivial.insert(format!("{v} {code}")); }
+    match parse_foreign(&text, code, k) {
+        None => ctx.ev.violation("oracle", format!("format_currency_amount({v} {code}) = '{text}' is not '[-]digits[.{k} digits] {code}'"), format!("# property C17\n# oracle: foreign-currency figure\nvalue {v} {code}\n")),
+        Some(shown) => if !shown.eq(&want) { ctx.ev.violation("oracle", format!("text shows '{text}' for {v} {code}; rounding to {k} decimals with midpoints away from zero gives {}", want.approx()), format!("# property C17\n# oracle: foreign-currency figure as echoed in the text report's ASSET EVENTS section\n# e.g. a ledger line: 2023-06-15 DIVIDEND ACME TOTAL {} {code} TAX 0 {code}\nvalue {v} {code}\n", v.abs())); },
+    }
+    if let Some(m) = ctx.model.as_mut() {
+        ctx.ev.traces_validated += 1;
+        let a = m.ask(&format!("fmtcur {code} {k} {}", q.wire()));
+        let mt = a.strip_prefix("ok ").map(unhex6).unwrap_or(a.clone());
+        if mt != text { ctx.ev.violation("correspondence", format!("format_currency_amount({v} {code}): impl '{text}' vs model '{mt}'"), format!("# property C17\n# correspondence: fmtcur\nvalue {v} {code}\n")); }
+    }
+}
+
 fn gen_value(r: &mut Rng) -> Decimal {
     let sign = if r.chance(1, 3) { -1 } else { 1 };
     let v = match r.below(8) {
@@ -85,10 +145,37 @@ fn check_value(ctx: &mut Ctx, v: Decimal) {
 
 pub fn run(ctx: &mut Ctx) {
     let prop = "C17";
-    ctx.ev.rule = "part 1: generated values (exact half-penny midpoints, ±1 in the 4th decimal around them, zero, negative, ≥ £1,000,000, tiny, 10-decimal): format_gbp's string must have the shape [-]£d,ddd.dd and read back as the value rounded to pence with midpoints away from zero; the JSON money string (the serde serialiser used by --format json and the MCP tools) must read back as the full value or that same rounding; both compared with the Lean formatter. Quantities: format_decimal_trimmed reads back exactly; dates DD/MM/YYYY; tax years YYYY/YY. part 2: generated ledgers: every figure of the plain-text summary rows equals format_gbp of the report's value; the JSON report's strings equal the same rounding; both list the same years, disposals and legs. Non-trivial = values exactly on a half-penny, and reports with ≥ 2 years; distinct by value/ledger.".into();
+    ctx.ev.rule = "part 1: generated values (exact half-penny midpoints, ±1 in the 4th decimal around them, zero, negative, ≥ £1,000,000, tiny, 10-decimal): format_gbp's string must have the shape [-]£d,ddd.dd and read back as the value rounded to pence with midpoints away from zero; the JSON money string (the serde serialiser used by --format json and the MCP tools) must read back as the full value or that same rounding; both compared with the Lean formatter. Amounts in other currencies (USD, EUR, JPY, KWD, CHF, BHD, KRW, CLF: ISO exponents 0, 2, 3, 4; half-unit midpoints, ±1 around them, negatives): format_currency_amount reads back as the amount rounded to the currency's minor units with midpoints away from zero, compared with the Lean fmtCurrencyAmount; and the real text report's ASSET EVENTS lines for USD/JPY/KWD midpoint amounts. Quantities: format_decimal_trimmed reads back exactly; dates DD/MM/YYYY; tax years YYYY/YY. part 2: generated ledgers: every figure of the plain-text summary rows equals format_gbp of the report's value; the JSON report's strings equal the same rounding; both list the same years, disposals and legs. Non-trivial = values exactly on a half-penny, and reports with ≥ 2 years; distinct by value/ledger.".into();
     let mut r = Rng::new(ctx.seed ^ 0xC17);
     let n = ctx.n(1500, 80_000);
     for _ in 0..n { let v = gen_value(&mut r); check_value(ctx, v); }
+    // amounts in other currencies (transaction echoes), every ISO exponent 0, 2, 3, 4
+    for _ in 0..ctx.n(400, 20_000) {
+        let code = *r.pick(CODES);
+        let k = cgt_money::Currency::from_code(code).map(|c| cgt_money::CurrencyAmount::new(Decimal::ZERO, c).minor_units() as u32).unwrap_or(2);
+        let v = gen_foreign(&mut r, k);
+        check_foreign(ctx, code, v);
+    }
+    for (code, v) in [("USD", "12.345"), ("USD", "20.125"), ("JPY", "100.5"), ("KWD", "0.0005"), ("USD", "-0.125")] { check_foreign(ctx, code, v.parse().expect("literal")); }
+    // the same through the real text report: asset events in other currencies on half-unit midpoints
+    {
+        use cgt_money::{Currency, CurrencyAmount};
+        let mk = |v: &str, c: &str| CurrencyAmount::new(v.parse().expect("literal"), Currency::from_code(c).expect("code"));
+        let d = |y, m, dd| chrono::NaiveDate::from_ymd_opt(y, m, dd).expect("date");
+        let txs = vec![
+            cgt_core::Transaction { date: d(2023, 1, 10), ticker: "ACME".into(), operation: cgt_core::Operation::Buy { amount: Decimal::from(1000), price: mk("10", "USD"), fees: mk("0", "USD") } },
+            cgt_core::Transaction { date: d(2023, 6, 15), ticker: "ACME".into(), operation: cgt_core::Operation::Dividend { total_value: mk("12.345", "USD"), tax_paid: mk("0", "USD") } },
+            cgt_core::Transaction { date: d(2023, 7, 15), ticker: "ACME".into(), operation: cgt_core::Operation::CapReturn { amount: Decimal::from(1000), total_value: mk("20.125", "USD"), fees: mk("0", "USD") } },
+            cgt_core::Transaction { date: d(2023, 8, 15), ticker: "ACME".into(), operation: cgt_core::Operation::Dividend { total_value: mk("100.5", "JPY"), tax_paid: mk("0", "JPY") } },
+            cgt_core::Transaction { date: d(2023, 9, 15), ticker: "ACME".into(), operation: cgt_core::Operation::Accumulation { amount: Decimal::from(1000), total_value: mk("7.0005", "KWD"), tax_paid: mk("0", "KWD") } },
+        ];
+        let rep = cgt_core::TaxReport { tax_years: vec![], holdings: vec![], transactions: txs };
+        let text = cgt_formatter_plain::PlainFormatter.format(&rep).unwrap_or_default();
+        ctx.ev.evaluations += 1;
+        for want in ["15/06/2023 DIVIDEND ACME 12.35 USD", "15/07/2023 CAPRETURN ACME 1000 20.13 USD", "15/08/2023 DIVIDEND ACME 101 JPY", "15/09/2023 ACCUMULATION ACME 1000 7.001 KWD"] {
+            if !text.lines().any(|l| l == want) { ctx.ev.violation("oracle", format!("the text report's ASSET EVENTS section lacks the line '{want}' (amount rounded to the currency's minor units, midpoints away from zero)"), format!("# property C17\n# oracle: text report of these transactions\n2023-01-10 BUY ACME 1000 @ 10 USD FEES 0 USD\n2023-06-15 DIVIDEND ACME TOTAL 12.345 USD TAX 0 USD\n2023-07-15 CAPRETURN ACME 1000 TOTAL 20.125 USD FEES 0 USD\n2023-08-15 DIVIDEND ACME TOTAL 100.5 JPY TAX 0 JPY\n2023-09-15 ACCUMULATION ACME 1000 TOTAL 7.0005 KWD TAX 0 KWD\n# got:\n{}\n", text.lines().skip_while(|l| !l.contains("ASSET EVENTS")).map(|l| format!("# {l}")).collect::<Vec<_>>().join("\n"))); }
+        }
+    }
     // the D8 witness every run
     check_value(ctx, Decimal::new(125, 3));
     // quantities, dates, tax years
